@@ -64,6 +64,8 @@ def _wrun(chunk):
                 for r, u in ((r1, c["u1"]), (r2, c["u2"])):
                     if r["st"] == "fail" and r["err"]["stack"] != u["err"]:
                         ok = False
+            if c.get("dev10b") and r2["st"] == "done":
+                ok = False      # named deviation F10b exhibited: let TLC confirm it on the recording
             if not ok:
                 rec, extra = tp.make_record(d, c["raw"], 0, gen, r1, None, False)
                 rec["has2"] = True
